@@ -575,6 +575,24 @@ def run(tier):
     ]
     fmt_table.regenerate()
     model_ok = common.proof_gate(chk, search)
+    if model_ok:
+        # table obligations (hypothesis `tableTyped formatters` of the theorems, and
+        # `_check_productions`): evaluated by the compiled checker on the regenerated table
+        chk.obligations += 1
+        ans = common.Model("model_c11").ask(["TABLE"])[0]
+        chk.extra["table_obligation"] = ans
+        if ans == "ok":
+            chk.discharged += 1
+            chk.theorems.append({"theorem": "tableTyped formatters ∧ tableMatchesGrammar (compiled checker, op TABLE)",
+                                 "axioms": ["Lean compiler"]})
+        else:
+            print("table obligations of C11 no longer hold: %s" % ans[:1500])
+            if not search(chk):
+                chk.violation("theorem", {"theorem_or_correspondence": "tableTyped formatters / tableMatchesGrammar: " + ans,
+                                          "note": "regenerated production->handler table no longer satisfies the "
+                                                  "hypothesis of C11_total / C11_tokens_preserved; search found no "
+                                                  "failing input"}, found_input=False)
+            model_ok = False
     st = State(chk, tier)
     r = common.rng("C11")
     quick = tier == "quick"
